@@ -509,7 +509,7 @@ func lexInts(a, b []int) age.Rank {
 func units(tier string) []engine.Unit {
 	var us []engine.Unit
 	add := func(name string, f func(r *engine.Rec)) { us = append(us, engine.Unit{Name: name, Run: f}) }
-	small := []int{1, 2, 3, 4, 5, 6, 7, 8, 9}
+	small := []int{1, 2, 3, 4, 5, 6, 7, 8, 9, 10, 11}
 	if tier != "thorough" {
 		small = []int{1, 2, 3, 4, 5, 6}
 	}
